@@ -34,6 +34,10 @@ EXTENDS Naturals, Sequences, TLC
 
 BL == 32  TAB == 9  AMP == 38  BANG == 33  SQ == 39  DQ == 34  HASH == 35
 
+\* TLC re-evaluates LET definitions at every use; a value bound by a quantifier is computed once:
+\*     Pick({Body(v) : v \in {Expr}})   evaluates Expr once and Body once
+Pick(S) == CHOOSE x \in S : TRUE
+
 IsBlank(c) == c = BL \/ c = TAB
 IsWord(c) == (c >= 48 /\ c <= 57) \/ (c >= 65 /\ c <= 90) \/ (c >= 97 /\ c <= 122) \/ c = 95 \/ c = 46
 \* ** // == /= <= >= => :: (/ /)
@@ -100,21 +104,20 @@ Close(st) == IF InChar(st) THEN Append(Append(st.toks, st.cur), <<0>>) ELSE Flus
 
 \* S = [st, contd, stmts, ends]: ends[k] is the number of the physical line on which statement k ends
 Start == [st |-> Fresh, contd |-> FALSE, stmts |-> <<>>, ends |-> <<>>]
+EndStmt(S, t, i) == IF t = <<>> THEN [S EXCEPT !.st = Fresh, !.contd = FALSE]
+                    ELSE [st |-> Fresh, contd |-> FALSE, stmts |-> Append(S.stmts, t), ends |-> Append(S.ends, i)]
+AfterScan(S, r, i) == IF r.cont THEN [S EXCEPT !.st = r.st, !.contd = TRUE]
+                      ELSE Pick({EndStmt(S, t, i) : t \in {Close(r.st)}})
 DoLine(S, l, i) ==
   IF Skipped(l, S.st, S.contd) THEN S
-  ELSE LET r == Scan(S.st, l, StartCol(l, S.contd), LastNB(l, Len(l))) IN
-       IF r.cont THEN [S EXCEPT !.st = r.st, !.contd = TRUE]
-       ELSE LET t == Close(r.st) IN
-            IF t = <<>> THEN [S EXCEPT !.st = Fresh, !.contd = FALSE]
-            ELSE [st |-> Fresh, contd |-> FALSE, stmts |-> Append(S.stmts, t), ends |-> Append(S.ends, i)]
+  ELSE Pick({AfterScan(S, r, i) : r \in {Scan(S.st, l, StartCol(l, S.contd), LastNB(l, Len(l)))}})
 
 RECURSIVE Fold(_, _, _)
 Fold(S, lines, i) == IF i > Len(lines) THEN S ELSE Fold(DoLine(S, lines[i], i), lines, i + 1)
 
 \* a continuation that runs off the end of the text is made visible by the marker token <<1>>
-Read(lines) ==
-  LET S == Fold(Start, lines, 1) IN
-  IF S.contd THEN [S EXCEPT !.stmts = Append(@, Append(Close(S.st), <<1>>)), !.ends = Append(@, Len(lines))] ELSE S
+Read(lines) == Pick({IF S.contd THEN [S EXCEPT !.stmts = Append(@, Append(Close(S.st), <<1>>)), !.ends = Append(@, Len(lines))] ELSE S :
+                        S \in {Fold(Start, lines, 1)}})
 Statements(lines) == Read(lines).stmts
 
 RECURSIVE Flatten(_, _, _)
@@ -123,48 +126,44 @@ Flatten(ss, i, acc) == IF i > Len(ss) THEN acc ELSE Flatten(ss, i + 1, acc \o ss
 (* ------------------------------------------------------- the line clause *)
 \* tokens (and token pieces) lying on one physical line, given the context the line starts in
 LineTokens(l, mode0, contd) ==
-  LET r == Scan([m |-> mode0, cur |-> <<>>, toks |-> <<>>], l, StartCol(l, contd), LastNB(l, Len(l))) IN
-  [toks |-> IF r.st.cur = <<>> THEN r.st.toks ELSE Append(r.st.toks, r.st.cur), cm |-> r.cm]
+  Pick({[toks |-> IF r.st.cur = <<>> THEN r.st.toks ELSE Append(r.st.toks, r.st.cur), cm |-> r.cm] :
+           r \in {Scan([m |-> mode0, cur |-> <<>>, toks |-> <<>>], l, StartCol(l, contd), LastNB(l, Len(l)))}})
 MaxLen(toks) == IF toks = <<>> THEN 0 ELSE LET k == CHOOSE k \in DOMAIN toks : \A j \in DOMAIN toks : Len(toks[j]) <= Len(toks[k])
                                            IN Len(toks[k])
 \* "ok" | "long" (a line of several breakable tokens exceeds W) |
 \* "near" (the line holds a token t with W - Over < Len(t) <= W: it is not longer than W, so the clause applies, but it
 \*         does not fit together with continuation markers of Over characters) -- both violate the property; the
 \*         distinction only serves the normal-form keys
+Clause3(l, W, Over, cm, mx) ==
+  IF cm > 0 /\ LastNB(l, cm - 1) <= W THEN "ok"            \* only the trailing comment is longer
+  ELSE IF mx > W THEN "ok"                                 \* a single unbreakable token is longer
+  ELSE IF mx + Over > W THEN "near"
+  ELSE "long"
 LineClause(l, W, Over, mode0, contd) ==
   IF Len(l) <= W THEN "ok"
-  ELSE LET lt == LineTokens(l, mode0, contd)
-           codeLen == IF lt.cm > 0 THEN LastNB(l, lt.cm - 1) ELSE LastNB(l, Len(l))
-           mx == MaxLen(lt.toks)
-       IN IF lt.cm > 0 /\ codeLen <= W THEN "ok"          \* only the trailing comment is longer
-          ELSE IF mx > W THEN "ok"                         \* a single unbreakable token is longer
-          ELSE IF mx + Over > W THEN "near"
-          ELSE "long"
+  ELSE Pick({Clause3(l, W, Over, lt.cm, MaxLen(lt.toks)) : lt \in {LineTokens(l, mode0, contd)}})
 
 \* One pass over a text: the reading (stmts, ends) and bad = <<line number, clause>> of the offending lines.
 RECURSIVE LineScan(_, _, _, _, _, _)
 LineScan(S, lines, i, W, Over, bad) ==
   IF i > Len(lines) THEN [S |-> S, bad |-> bad]
-  ELSE LET l == lines[i]
-           \* blank, comment-only and preprocessor lines carry no tokens (comments are exempt)
-           cl == IF Len(l) <= W \/ Skipped(l, S.st, S.contd) THEN "ok"
-                 ELSE LineClause(l, W, Over, IF InChar(S.st) THEN S.st.m ELSE "c", S.contd)
-       IN LineScan(DoLine(S, l, i), lines, i + 1, W, Over, IF cl = "ok" THEN bad ELSE Append(bad, <<i, cl>>))
-ReadChecked(lines, W, Over) ==
-  LET r == LineScan(Start, lines, 1, W, Over, <<>>) IN
-  [stmts |-> IF r.S.contd THEN Append(r.S.stmts, Append(Close(r.S.st), <<1>>)) ELSE r.S.stmts,
-   ends |-> IF r.S.contd THEN Append(r.S.ends, Len(lines)) ELSE r.S.ends,
-   bad |-> r.bad]
+  ELSE LET l == lines[i] IN
+       \* blank, comment-only and preprocessor lines carry no tokens (comments are exempt)
+       IF Len(l) <= W \/ Skipped(l, S.st, S.contd) THEN LineScan(DoLine(S, l, i), lines, i + 1, W, Over, bad)
+       ELSE Pick({LineScan(DoLine(S, l, i), lines, i + 1, W, Over, IF cl = "ok" THEN bad ELSE Append(bad, <<i, cl>>)) :
+                     cl \in {LineClause(l, W, Over, IF InChar(S.st) THEN S.st.m ELSE "c", S.contd)}})
+Finish(r, n) == [stmts |-> IF r.S.contd THEN Append(r.S.stmts, Append(Close(r.S.st), <<1>>)) ELSE r.S.stmts,
+                 ends |-> IF r.S.contd THEN Append(r.S.ends, n) ELSE r.S.ends,
+                 bad |-> r.bad]
+ReadChecked(lines, W, Over) == Pick({Finish(r, Len(lines)) : r \in {LineScan(Start, lines, 1, W, Over, <<>>)}})
 BadLines(lines, W, Over) == ReadChecked(lines, W, Over).bad
 
 (* --------------------------------------------------- comparing statements *)
-Min(a, b) == IF a < b THEN a ELSE b
-\* first position at which two sequences differ (Min(len) + 1 if one is a proper prefix), 0 if equal
-FirstDiff(a, b) ==
-  IF a = b THEN 0
-  ELSE IF \E k \in 1..Min(Len(a), Len(b)) : a[k] # b[k]
-       THEN CHOOSE k \in 1..Min(Len(a), Len(b)) : a[k] # b[k] /\ \A j \in 1..(k - 1) : a[j] = b[j]
-       ELSE Min(Len(a), Len(b)) + 1
+Min2(a, b) == IF a < b THEN a ELSE b
+\* first position at which two sequences differ (Min2(len) + 1 if one is a proper prefix), 0 if equal
+RECURSIVE FirstDiffFrom(_, _, _, _)
+FirstDiffFrom(a, b, k, n) == IF k > n THEN n + 1 ELSE IF a[k] # b[k] THEN k ELSE FirstDiffFrom(a, b, k + 1, n)
+FirstDiff(a, b) == IF a = b THEN 0 ELSE FirstDiffFrom(a, b, 1, Min2(Len(a), Len(b)))
 
 (* ------------------------------------------- level (i): described items *)
 \* A described item is [k, n] (leaf of kind k and length n), [k |-> "L", items, sep, separable] (a nested list) or
@@ -231,18 +230,17 @@ LoneAmp(lines, i) == IF i > Len(lines) THEN 0
 
 \* The acceptance of one printed form of a described list: <<>> or <<clause, position>>
 \*   want = the tokens of Text(top);  x = [width, cont0 (end-of-line string without the newline), cont1, out (lines)]
+Accept1b(want, x, rd, got, d, lone) ==
+  IF lone # 0 THEN <<"lone-ampersand", lone>>
+  ELSE IF Len(rd.stmts) > 1 THEN <<"statement-split", rd.ends[1]>>
+  ELSE IF d # 0 /\ \E k \in DOMAIN got : got[k] = <<AMP>> THEN <<"stray-ampersand", d>>
+  ELSE IF d # 0 THEN <<"tokens:" \o (IF d <= Len(want) THEN TokKind(want[d]) ELSE "count"), d>>
+  ELSE IF rd.bad # <<>> THEN <<"line-" \o rd.bad[1][2], rd.bad[1][1]>>
+  ELSE <<>>
 Accept1(want, x) ==
-  LET rd == ReadChecked(x.out, x.width, Len(x.cont0) + Len(x.cont1))
-      got == Flatten(rd.stmts, 1, <<>>)
-      d == FirstDiff(want, got)
-      lone == LoneAmp(x.out, 1)
-      bad == rd.bad
-  IN IF lone # 0 THEN <<"lone-ampersand", lone>>
-     ELSE IF Len(rd.stmts) > 1 THEN <<"statement-split", rd.ends[1]>>
-     ELSE IF d # 0 /\ \E k \in DOMAIN got : got[k] = <<AMP>> THEN <<"stray-ampersand", d>>
-     ELSE IF d # 0 THEN <<"tokens:" \o (IF d <= Len(want) THEN TokKind(want[d]) ELSE "count"), d>>
-     ELSE IF bad # <<>> THEN <<"line-" \o bad[1][2], bad[1][1]>>
-     ELSE <<>>
+  Pick({ Pick({ Pick({ Accept1b(want, x, rd, got, d, LoneAmp(x.out, 1)) : d \in {FirstDiff(want, got)} }) :
+                  got \in {Flatten(rd.stmts, 1, <<>>)} }) :
+           rd \in {ReadChecked(x.out, x.width, Len(x.cont0) + Len(x.cont1))} })
 
 (* -------------------------------- a reference wrapper (design-level check) *)
 \* Greedy wrapping of a token sequence into lines of width W with continuation strings c0 (end of line) and c1
